@@ -53,3 +53,37 @@ def build():
 
 ISAS = [Isa("PIC16C84", "16C84", build(), "mot", pcsym="*", gran=2, slot=2, base=0x20, maxaddr=0x3ff,
             golden=[("t_16c84", {"16c84": True})])]
+
+
+# ---------------------------------------------------------------------------------------------------------
+# 8K-word members of the family (PIC16C876/877): the CALL/GOTO field still has 11 bits; the data sheet
+# (DS30292, "PCL and PCLATH") prescribes that PCLATH<4:3> hold bits 12:11 of the target when CALL/GOTO executes.
+# asl inserts BCF/BSF PCLATH,3 / PCLATH,4 in front of a CALL/GOTO that leaves the 2K page of the instruction
+# itself - the same two statements, in the same order, that Microchip's PAGESEL directive stands for - and only
+# those whose bit differs from the page the instruction is assembled in.  The reference below is derived from
+# that rule: after the emitted prefix, PCLATH<4:3> (assumed equal to pc<12:11> before) equals target<12:11>.
+PCLATH = 0x0A
+
+
+def paged(op):
+    def enc(pc, v):
+        k = v[0]
+        out = b""
+        for bit, mask in ((3, 0x800), (4, 0x1000)):
+            if (pc ^ k) & mask:
+                out += le16((0x1400 if k & mask else 0x1000) | bit << 7 | PCLATH)
+        return out + le16(op | (k & 0x7ff))
+    return enc
+
+
+def build_paged():
+    A13 = lambda: Int(0, 0x1FFF, rej_lo=False, rej_from=0x2000)
+    return [Form("CALL k (page select)", "CALL {0}", [A13()], paged(0x2000)),
+            Form("GOTO k (page select)", "GOTO {0}", [A13()], paged(0x2800)),
+            Form("NOP", "NOP", [], lambda pc, v: le16(0x0000), dontcare=le16(0x0060)),
+            Form("MOVLW k", "MOVLW {0}", [K8()], lambda pc, v: le16(0x3000 | v[0] & 0xff), dontcare=le16(0x0300))]
+
+
+ISAS += [Isa("PIC16C877@%04X" % b, "16C877", build_paged(), "mot", pcsym="*", gran=2, slot=4, base=b, maxaddr=0x1fff,
+             maxitems=120) for b in (0x0020, 0x0720, 0x0F00, 0x1100, 0x1B00)]
+
